@@ -407,7 +407,7 @@ BackendGen gen_backend(Choices& c)
     b.sleep_us = slp[c.pick(3)];
   }
   static long const grace[] = {1, 0, 1000, 20000};
-  b.grace_us = grace[c.weighted({4, 2, 2, 1})];
+  b.grace_us = grace[c.weighted({3, 1, 2, 3})]; // a long grace period keeps the last statements "too young" when the stop arrives
   b.flush_ms = c.flip(2, 3) ? 200 : 0;
   return b;
 }
